@@ -41,6 +41,10 @@ def parse_arm(idx, matcher, trans):
     if norm(rest) != norm(known): a["opaque"].append("matcher-options:" + rest)
     a["bound"] = sorted(set(re.findall(r"\$(\w+):", m)))
     a["used"] = sorted(set(x for x in re.findall(r"\$(\w+)", t)))
+    # names the expansion declares as ITEMS (statics, consts, fns, types): macro_rules hygiene does not cover items, so inside the block these
+    # names shadow the caller's own items of the same name in the when / assign / returns fragments
+    a["items"] = sorted(set(re.findall(r"\b(?:static|const)\s+(?:mut\s+)?([A-Za-z_]\w*)\s*:", t)) | set(re.findall(r"\bfn\s+([A-Za-z_]\w*)\s*[(<]", t))
+                        | set(re.findall(r"\b(?:struct|enum|type|mod|trait|union)\s+([A-Za-z_]\w*)", t)))
     a["verifier_count"] = "CallCountVerifier::WithCount { counter: &FAKE_COUNTER, expected: $expected }" in t
     a["verifier_dummy"] = "let verifier = CallCountVerifier::Dummy;" in t
     a["static_counter"] = "static FAKE_COUNTER: AtomicUsize = AtomicUsize::new(0);" in t
